@@ -16,10 +16,29 @@ ch = treeio.chars
 CONTENTS = {'k1': [(1, 2, 'x', 'NEW'), (2, 1, 'y', 'NEU')], 'k2': [(1, 1, 'z', 'ZZ'), (2, 3, 'q', 'QQ')]}
 
 
+def _fixed_tree():
+    """(VROOT (S (PP-MO-1 (APPR von) (IN of) (NN haus)) (VP#X (VVFIN geht) (, ,))) (NP-SBJ (NN w5)))
+    categories on which the two head-rule presets disagree, labels with functions under both separators"""
+    def n(y, d, tok, lab, word='~', edge='--'):
+        return {'y': y, 'd': d, 'tok': tok, 'a': treeio.attr(lab=lab, word=word, edge=edge, lemma='--', morph='--')}
+    nodes = [n([1, 2, 3, 4, 5, 6], 0, False, 'VROOT'), n([1, 2, 3, 4, 5], 1, False, 'S'), n([6], 1, False, 'NP-SBJ'),
+             n([1, 2, 3], 2, False, 'PP-MO-1', edge='HD'), n([4, 5], 2, False, 'VP#X'),
+             n([1], 3, True, 'APPR', 'von'), n([2], 3, True, 'IN', 'of'), n([3], 3, True, 'NN', 'haus', 'HD'),
+             n([4], 3, True, 'VVFIN', 'geht', 'HD'), n([5], 3, True, '$,', ','), n([6], 2, True, 'NN', 'w6')]
+    return {'n': 6, 'nodes': nodes}
+
+
 def tree_of(sent):
+    if sent == 1:
+        T = _fixed_tree()
+        for x in T['nodes']:
+            a = x['a']
+            for fld in ('lab', 'edge', 'lemma', 'morph', 'word'):
+                a[fld] = ch(a[fld]) if a[fld] != '~' else ['~~']
+        return T
     rnd = random.Random(100 + sent)
-    T = treeio.random_tree(rnd, nmax=5, maxcons=4, labels=('S', 'NP', 'VP'), edges=('HD', '--', 'NK'),
-                           tags=('NN', 'VB'), tokedges=('--', 'HD'), chain=0.3,
+    T = treeio.random_tree(rnd, nmax=5, maxcons=4, labels=('S', 'NP-SBJ', 'VP', 'PP#MO', 'NP-OA-1', 'PP'),
+                           edges=('HD', '--', 'NK'), tags=('NN', 'VB', 'IN', 'APPR', 'ART-X'), tokedges=('--', 'HD'), chain=0.3,
                            words=lambda r, p: r.choice(['w%d' % p, ',', 'a&b', u'Üx']))
     if T['n'] < 3:
         return tree_of(sent + 17)
@@ -61,6 +80,27 @@ def exec_call(call, tmpdir):
             evs = fam_io.run_reader(mods, 'export', fn, 'utf-8', {'quiet': True})
             os.unlink(fn)
             return {'events': [e if e['a'] != 'eof' else {'a': 'eof'} for e in evs]}
+        if op in ('read_gf_dash', 'read_gf_hash'):
+            text = fam_io.render_export(T, sent, False, random.Random(1))
+            fn = os.path.join(tmpdir, 'gf_%d_%d.export' % (sent, os.getpid()))
+            with open(fn, 'w', encoding='utf-8') as f:
+                f.write(text)
+            params = {'quiet': True, 'gf_split': True}
+            if op.endswith('hash'):
+                params['gf_separator'] = '#'
+            evs = fam_io.run_reader(mods, 'export', fn, 'utf-8', params)
+            os.unlink(fn)
+            return {'events': [e if e['a'] != 'eof' else {'a': 'eof'} for e in evs]}
+        if op in ('heads_negra', 'heads_ptb'):
+            r = mods['transform'].mark_heads_by_rules(root, mark_heads_preset=op.split('_')[1])
+            return {'g': graph(r)}
+        if op == 'ptb_delete_traces':
+            r = mods['transform'].ptb_delete_traces(root)
+            return {'g': graph(r)}
+        if op == 'write_brackets_gf':
+            tf = mods['transform']
+            r = tf.raising(tf.boyd_split(tf.negra_mark_heads(root)))
+            return {'text': fam_io.run_writer(mods, 'brackets', ['gf', 'mark_heads_marking'], '#', r).split('\n')}
         if op == 'write':
             return {'text': fam_io.run_writer(mods, call.get('fmt', 'export'), [], '-', root).split('\n')}
         if op in ('extract', 'binarize'):
